@@ -53,13 +53,31 @@ def strip_source(s):
     return re.sub(r"^//! Source: .*$", "//! Source:", s, flags=re.M)
 
 
-def gen(ctx, d, spec_path, mode, tag):
+def env_of(envspec, d):
+    """envspec (cligrammar.fixed_envs / random_env) -> (environment additions, cwd, stdout file or None) for directory d"""
+    env, cwd, out = {"RUST_BACKTRACE": "0"}, None, None
+    for k, v in (envspec or {}).items():
+        if isinstance(v, str):
+            v = v.replace("<tmp>", d)
+        if k == "?cwd":
+            cwd = v
+        elif k == "?stdout":
+            out = v
+        else:
+            env[k] = v
+    for sub in ("home1", "cwd1"):
+        os.makedirs(os.path.join(d, sub), exist_ok=True)
+    return env, cwd, out
+
+
+def gen(ctx, d, spec_path, mode, tag, flags=(), envspec=None):
     out = os.path.join(d, "out_" + tag)
     if mode in ("types", "client"):
         args = ["generate", mode, "-i", spec_path, "-o", out + ".rs", "-q"]
     else:
         args = ["generate", mode, "-i", spec_path, "-o", out, "-q"]
-    rc, so, se, to = ctx.run_cli(args, env={"RUST_BACKTRACE": "0"})
+    env, cwd, so_kind = env_of(envspec, d)
+    rc, so, se, to = ctx.run_cli(args + list(flags), env=env, cwd=cwd, stdout_to=(out + ".stdout") if so_kind == "file" else None)
     files = {}
     if mode in ("types", "client"):
         if os.path.exists(out + ".rs"):
@@ -68,6 +86,17 @@ def gen(ctx, d, spec_path, mode, tag):
         for f in sorted(os.listdir(out)):
             files[f] = strip_source(open(os.path.join(out, f), encoding="utf-8").read())
     return rc, files, se[-300:]
+
+
+def list_ids(ctx, spec_path):
+    """operation ids as `list operations` prints them"""
+    rc, so, se, to = ctx.run_cli(["list", "operations", "-i", spec_path], env={"RUST_BACKTRACE": "0"})
+    ids = []
+    for l in so.splitlines():
+        t = l.split()
+        if len(t) >= 3 and t[1] in ("GET", "PUT", "POST", "DELETE", "OPTIONS", "HEAD", "PATCH", "TRACE"):
+            ids.append(t[0])
+    return ids if rc == 0 else []
 
 
 def has_object_example(v):
@@ -114,7 +143,21 @@ def ext_object_spec():
     return s
 
 
+def diff_lines(base, files):
+    diffs = []
+    for k in sorted(set(base) | set(files)):
+        a, b = base.get(k, "").splitlines(), files.get(k, "").splitlines()
+        hit = False
+        for i, (x, y) in enumerate(zip(a, b)):
+            if x != y:
+                diffs.append((k, i, x, y)); hit = True; break
+        if len(a) != len(b) and not hit:
+            diffs.append((k, min(len(a), len(b)), "<len %d>" % len(a), "<len %d>" % len(b)))
+    return diffs
+
+
 def run(ctx):
+    import cligrammar as G
     ctx.translate(["hashsites"])
     proofs_ok, driver_ok = ctx.build_lean(["Oas3Model.Props.C11"], driver=False)
     if proofs_ok:
@@ -125,28 +168,83 @@ def run(ctx):
     known = {e["class"]: e for e in ctx.load_known()}
     if ctx.build_cli():
         specs = []
-        fx = FIXTURES if not ctx.quick else r.sample(FIXTURES, 4)
+        fx = FIXTURES if not ctx.quick else ["petstore.json"] + r.sample([f for f in FIXTURES if f != "petstore.json"], 3)
         for f in fx:
             p = os.path.join(vlib.REPO, "crates/oas3-gen/fixtures", f)
             if os.path.exists(p):
                 specs.append((f, json.load(open(p))))
         specs.append(("gen_graph", graph_spec(["A", "B", "C"], [("A", "req", "B"), ("B", "arr", "C"), ("C", "oneOf", "A"), ("C", "oneOf", "B"), ("A", "map", "C")], ["A"])))
         specs.append(("gen_ops", ops_spec([{"opid": "listPets", "method": "get", "path": "/pets", "params": [{"name": "limit", "in": "query", "level": "op", "type": "integer"}, {"name": "X-Trace", "in": "header", "level": "path", "type": "string"}], "body": None, "responses": [["200", [["application/json", "ref:Pet"], ["text/plain", "string"]]], ["4XX", [["application/json", "ref:Err"]]], ["default", []]]},
-                                             {"opid": "createPet", "method": "post", "path": "/pets", "params": [], "body": {"content": [["application/json", "ref:Pet"]], "required": True}, "responses": [["201", [["application/json", "ref:Pet"]]]]}])))
+                                             {"opid": "createPet", "method": "post", "path": "/pets", "params": [], "body": {"content": [["application/json", "ref:Pet"]], "required": True}, "responses": [["201", [["application/json", "ref:Pet"]]]]},
+                                             {"opid": "showPet", "method": "get", "path": "/pets/{id}", "params": [{"name": "id", "in": "path", "level": "op", "type": "string"}], "body": None, "responses": [["200", [["application/json", "ref:Pet"]]]]},
+                                             {"opid": "dropPet", "method": "delete", "path": "/pets/{id}", "params": [{"name": "id", "in": "path", "level": "op", "type": "string"}], "body": None, "responses": [["204", []]]},
+                                             {"opid": "patchPet", "method": "patch", "path": "/pets/{id}", "params": [{"name": "id", "in": "path", "level": "op", "type": "string"}], "body": {"content": [["application/json", "ref:Pet"]], "required": True}, "responses": [["200", [["application/json", "ref:Pet"]]]]}])))
         ex = ops_spec([{"opid": "ex", "method": "get", "path": "/e", "params": [], "body": None, "responses": [["200", [["application/json", "ref:Pet"]]]]}])
         ex["components"]["schemas"]["Pet"]["properties"]["meta"] = {"type": "object", "example": {"b": 1, "a": {"z": 1, "y": 2}, "c": 3, "d": 4}}
         specs.append(("gen_example_object", ex))
         specs.append(("gen_name_collisions", collision_spec()))
         specs.append(("gen_ext_objects", ext_object_spec()))
+        # data whose rendering could consult the process environment (clock / time zone / locale)
+        specs.append(("gen_temporal_fixed", G.temporal_doc(None)))
+        specs.append(("gen_temporal_random", G.temporal_doc(r, 5 if ctx.quick else 12)))
+        specs.append(("gen_bigint", G.bigint_doc()))
+        specs.append(("gen_values", G.place(G.enum_shape("plain-untyped", ["basic", 1.5, G.BIG, 1e21, "Grüße", 0.1, -0.0]), "property")))
         nperm = 2 if ctx.quick else 5
+        fixed_envs = G.fixed_envs()
+        envi = [0]
+        def next_env(force_ref=False):
+            """reference environment, or the next of: the fixed environments in rotation, then random ones"""
+            if force_ref:
+                return None
+            envi[0] += 1
+            return fixed_envs[envi[0] % len(fixed_envs)] if envi[0] % 3 else G.random_env(r)
+
+        def judge(name, spec, mode, cfg, flags, tag, path, envspec, base_path, rc0, base, rc, files, err):
+            ctx.evaluations += 1
+            ctx.distinct.add((name, mode, cfg, tag))
+            br = tag.rstrip("0123456789") + ("" if cfg == "default" else "/" + cfg.rstrip("0123456789"))
+            ctx.branches[br] = ctx.branches.get(br, 0) + 1
+            same = (rc == rc0) and files == base
+            if len(ctx.samples) < 6 and (cfg != "default" or len(ctx.samples) < 2):
+                ctx.samples.append({"spec": name, "mode": mode, "flags": list(flags), "variant": tag, "env": envspec, "identical": same, "files": {k: len(v) for k, v in files.items()}})
+            if same:
+                return
+            diffs = diff_lines(base, files)
+            only_example_docs = bool(diffs) and all(("Example" in x or "Example" in y or x.strip().startswith("///") and y.strip().startswith("///")) for _, _, x, y in diffs)
+            case = {"op": "cli.determinism", "in": {"spec_name": name, "mode": mode, "flags": list(flags), "config": cfg, "variant": tag, "env": envspec, "spec_file": path}}
+            # the key-order finding is only claimed where NOTHING but the key order differs (same flags, reference environment)
+            if only_example_docs and envspec is None and (tag.startswith("perm") or tag.startswith("yaml")) and has_object_example(spec):
+                ctx.known_seen.setdefault("KnownValueKeyOrder", {"case": case, "impl": {"diff": [list(map(str, d_)) for d_ in diffs[:3]]}, "why": "object-valued example rendered in input key order"})
+                return
+            if path.endswith(".yaml") and rc0 == 0 and rc != 0 and ("as u128" in err or "as i128" in err) and G.has_huge_int(spec):
+                ctx.known_seen.setdefault("KnownYamlBigInt", {"case": case, "impl": {"rc": [rc0, rc], "stderr": err}, "why": "the YAML form of a document with an integer beyond u64 / below i64 is refused, the JSON form is accepted"})
+                return
+            keep = os.path.join(vlib.VERIF, "evidence", "replay", "C11_spec_" + os.path.basename(path))
+            os.makedirs(os.path.dirname(keep), exist_ok=True)
+            try:
+                import shutil; shutil.copyfile(path, keep); shutil.copyfile(base_path, keep + ".base.json")
+            except OSError:
+                pass
+            case["in"]["spec_file"] = keep
+            what = "a re-serialisation" if (tag.startswith("perm") or path.endswith(".yaml")) else "another process run"
+            ctx.violations.append({"case": case, "impl": {"rc": [rc0, rc], "stderr": err, "diff": [list(map(str, d_)) for d_ in diffs[:5]]},
+                                   "why": f"output of `generate {mode} {' '.join(flags)}` differs between the reference run and {what} ({tag}; environment {json.dumps(envspec)})"})
+
+        flag_specs = {"petstore.json", "gen_ops"} | ({n for n, _ in specs} if not ctx.quick else set(r.sample([n for n, _ in specs], 2)))
         for name, spec in specs:
             d = ctx.scratch(name)
             base_path = os.path.join(d, "spec.json")
             json.dump(spec, open(base_path, "w"))
+            keyorder = has_object_example(spec)
             modes = MODES if not ctx.quick else r.sample(MODES, 2)
+            if name.startswith("gen_temporal") and "types" not in modes:
+                modes = ["types"] + modes[:1]
             for mode in modes:
                 rc0, base, err0 = gen(ctx, d, base_path, mode, "base_" + mode)
                 variants = [("rerun", base_path), ("rerunb", base_path)] + ([] if ctx.quick else [("rerunc", base_path), ("rerund", base_path)])
+                if name.startswith("gen_temporal") or name == "gen_values":
+                    # every fixed environment once
+                    variants += [(f"renv{i}", base_path) for i in range(len(fixed_envs))]
                 for i in range(nperm):
                     pp = os.path.join(d, f"perm{i}.json")
                     json.dump(permute(spec, r), open(pp, "w"), indent=r.choice([None, 1, 4]))
@@ -158,44 +256,43 @@ def run(ctx):
                 open(ypp, "w", encoding="utf-8").write(to_yaml(permute(spec, r)))
                 variants.append(("yaml_perm", ypp))
                 for tag, path in variants:
-                    rc, files, err = gen(ctx, d, path, mode, tag + "_" + mode)
-                    ctx.evaluations += 1
-                    ctx.distinct.add((name, mode, tag))
-                    ctx.branches[tag.rstrip("0123456789")] = ctx.branches.get(tag.rstrip("0123456789"), 0) + 1
-                    same = (rc == rc0) and files == base
-                    if len(ctx.samples) < 4:
-                        ctx.samples.append({"spec": name, "mode": mode, "variant": tag, "identical": same, "files": {k: len(v) for k, v in files.items()}})
-                    if same:
-                        continue
-                    # which lines differ?
-                    diffs = []
-                    for k in sorted(set(base) | set(files)):
-                        a, b = base.get(k, "").splitlines(), files.get(k, "").splitlines()
-                        for i, (x, y) in enumerate(zip(a, b)):
-                            if x != y:
-                                diffs.append((k, i, x, y)); break
-                        if len(a) != len(b) and not diffs:
-                            diffs.append((k, min(len(a), len(b)), "<len>", "<len>"))
-                    only_example_docs = bool(diffs) and all(("Example" in x or "Example" in y or x.strip().startswith("///") and y.strip().startswith("///")) for _, _, x, y in diffs)
-                    case = {"op": "cli.determinism", "in": {"spec_name": name, "mode": mode, "variant": tag, "spec_file": path}}
-                    if only_example_docs and not tag.startswith("rerun") and has_object_example(spec):
-                        ctx.known_seen.setdefault("KnownValueKeyOrder", {"case": case, "impl": {"diff": [list(map(str, d_)) for d_ in diffs[:3]]}, "why": "object-valued example rendered in input key order"})
-                    else:
-                        keep = os.path.join(vlib.VERIF, "evidence", "replay", "C11_spec_" + os.path.basename(path))
-                        os.makedirs(os.path.dirname(keep), exist_ok=True)
-                        try:
-                            import shutil; shutil.copyfile(path, keep); shutil.copyfile(base_path, keep + ".base.json")
-                        except OSError:
-                            pass
-                        case["in"]["spec_file"] = keep
-                        ctx.violations.append({"case": case, "impl": {"rc": [rc0, rc], "stderr": err, "diff": [list(map(str, d_)) for d_ in diffs[:5]]}, "why": f"output of `generate {mode}` differs between the base document and its {tag} re-serialisation"})
+                    reser = tag.startswith("perm") or tag.startswith("yaml")
+                    envspec = fixed_envs[int(tag[4:])] if tag.startswith("renv") else next_env(force_ref=(reser and keyorder) or tag == "rerun")
+                    rc, files, err = gen(ctx, d, path, mode, tag + "_" + mode, (), envspec)
+                    judge(name, spec, mode, "default", (), tag, path, envspec, base_path, rc0, base, rc, files, err)
                 if len(ctx.violations) >= 3:
                     break
+            # ---- run configurations: the same flags must give the same bytes in every process / environment, and so
+            # must the same id SET written in another order
+            if name in flag_specs and len(ctx.violations) < 3:
+                ids = list_ids(ctx, base_path)
+                pmodes = ["client", "client-mod", "server-mod"]
+                fmodes = (pmodes + ["types"]) if not ctx.quick else [r.choice(pmodes)] + ([r.choice(["types", "client"])] if name == "petstore.json" else [])
+                yp = os.path.join(d, "spec.yaml")
+                for mode in fmodes:
+                    for cfg, arglists in G.flag_configs(r, ids, not ctx.quick):
+                        if cfg == "default":
+                            continue
+                        rc0, base, err0 = gen(ctx, d, base_path, mode, f"cfg_{cfg}_base_{mode}", arglists[0])
+                        k = 0
+                        for ai, fl in enumerate(arglists):
+                            for rep in range(2 if (ai or len(arglists) > 1) else (2 if ctx.quick else 3)):
+                                k += 1
+                                envspec = next_env()
+                                path = yp if (rep == 1 and ai == 0 and not keyorder) else base_path
+                                tag = ("order" if ai else "rerun") + str(k) + ("yaml" if path == yp else "")
+                                rc, files, err = gen(ctx, d, path, mode, f"cfg_{cfg}_{tag}_{mode}", fl, envspec)
+                                judge(name, spec, mode, cfg, fl, tag, path, envspec, base_path, rc0, base, rc, files, err)
+                        if len(ctx.violations) >= 3:
+                            break
+                    if len(ctx.violations) >= 3:
+                        break
             if len(ctx.violations) >= 3:
                 break
         ctx.ties["E-cli"] = ctx.evaluations
     return ctx.finish(
         checker_cmd="lake build Oas3Model.Props.C11 && #print axioms on every theorem" + ("" if ctx.quick else " && leanchecker"),
         trusted_base=vlib.TRUSTED_BASE + ["the YAML front end (serde_yaml) and the process hash seed are outside the model: covered only by the byte comparison of real CLI runs", "the hash-site table is produced by a regex-level scan (tools/extract.py: gen_hashsites)"],
-        rule="the REAL binary on shipped fixtures (10 thorough / 4 quick) + 5 generated specs (incl. colliding inline names, object-valued vendor extensions in duplicated inline schemas) x modes (4 thorough / 2 quick) x {same file again 2-4 times (fresh process, fresh hash seed), 2-5 random key-order permutations at every object level with different indentation, YAML, key-permuted YAML}; output files compared byte for byte modulo the `Source:` line; non-trivial = every variant; distinct by (spec, mode, variant)",
-        assumptions=["JSON object key order, whitespace and JSON-vs-YAML are the re-serialisations considered", "PyYAML (or the built-in emitter) writes a document equal to the JSON one"])
+        rule="the REAL binary on shipped fixtures (10 thorough / 4 quick, petstore always) + 8 generated specs (colliding inline names, object-valued vendor extensions in duplicated inline schemas, date / date-time / time / number / non-ASCII examples and defaults with offsets, fractional and leap seconds, values beyond i64) x modes (4 thorough / 2 quick) x {same file again 2-4 times (fresh process, fresh hash seed), 2-5 random key-order permutations at every object level with different indentation, YAML, key-permuted YAML}; EVERY comparison run but the first rerun executes in a different process environment than the reference run (TZ in {UTC0, XST-9, XWT5, Europe/Berlin, America/New_York, unset}, LANG / LC_ALL in {C, en_US.UTF-8, de_DE.UTF-8, unset}, COLUMNS, NO_COLOR / TERM / CLICOLOR_FORCE, HOME, working directory, stdout a pipe or a regular file; 4 fixed environments in rotation + random ones; the temporal documents see all 4 fixed ones); run configurations on petstore, the 5-operation document and 2 more (all thorough): --only with 2-4 ids taken from `list operations` and --exclude, each id set in 2-3 orders, --only + --all-schemas, --all-schemas, --all-headers, --enum-mode, --visibility, --enable-builders, --no-helpers, --odata-support (3 sampled quick / all thorough) in a per-operation mode, each compared with its own reference run over >= 2 further processes incl. the YAML form; output files compared byte for byte modulo the `Source:` line; non-trivial = every variant; distinct by (spec, mode, configuration, variant)",
+        assumptions=["JSON object key order, whitespace and JSON-vs-YAML are the re-serialisations considered", "PyYAML (or the built-in emitter) writes a document equal to the JSON one",
+                     "the environment is varied through the variables, working directory and stdout kind listed in the rule; the system time zone database / locale files present on the machine decide whether a TZ / LANG value has an effect at all"])
